@@ -7,20 +7,19 @@ import (
 	"mltwist/internal/consoleui/internal/cmdtools"
 	"mltwist/pkg/model"
 	"strconv"
+	"strings"
 	"unsafe"
 )
 
 func parseAddr(s string) (interface{}, error) {
 	base := 10
-	if len(s) > 2 && s[:2] == "0x" || s[:2] == "0X" {
-		base = 16
-		s = s[2:]
-	} else if len(s) == 2 && s[:2] == "0b" || s[:2] == "0B" {
-		base = 2
-		s = s[2:]
-	} else if len(s) > 0 && s[0] == '0' {
-		base = 8
-		s = s[1:]
+	switch {
+	case strings.HasPrefix(s, "0x") || strings.HasPrefix(s, "0X"):
+		base, s = 16, s[2:]
+	case strings.HasPrefix(s, "0b") || strings.HasPrefix(s, "0B"):
+		base, s = 2, s[2:]
+	case len(s) > 1 && s[0] == '0':
+		base, s = 8, s[1:]
 	}
 
 	addr, err := strconv.ParseUint(s, base, int(unsafe.Sizeof(model.Addr(0))*8))
